@@ -2756,6 +2756,13 @@ class ChannelManager:
         # Process the response
         channel.on_connection_response(response)
 
+        # Remember the channel by destination CID (now, not when the caller of
+        # create_le_credit_based_channel resumes: the link may be gone by then)
+        if channel.state == LeCreditBasedChannel.State.CONNECTED:
+            self.le_coc_channels.setdefault(connection.handle, {})[
+                channel.destination_cid
+            ] = channel
+
     def on_l2cap_credit_based_connection_request(
         self,
         connection: Connection,
@@ -2886,6 +2893,11 @@ class ChannelManager:
         # Process the response
         for channel, destination_cid in zip(channels, response.destination_cid):
             channel.on_enhanced_connection_response(destination_cid, response)
+            # Remember the channel by destination CID
+            if channel.state == LeCreditBasedChannel.State.CONNECTED:
+                self.le_coc_channels.setdefault(connection.handle, {})[
+                    channel.destination_cid
+                ] = channel
 
         if (
             response.result
@@ -2956,10 +2968,6 @@ class ChannelManager:
             logger.exception('connection failed')
             del connection_channels[source_cid]
             raise
-
-        # Remember the channel by source CID and destination CID
-        le_connection_channels = self.le_coc_channels.setdefault(connection.handle, {})
-        le_connection_channels[channel.destination_cid] = channel
 
         return channel
 
@@ -3065,11 +3073,6 @@ class ChannelManager:
             for cid in source_cids:
                 del connection_channels[cid]
             raise
-
-        # Remember the channel by source CID and destination CID
-        le_connection_channels = self.le_coc_channels.setdefault(connection.handle, {})
-        for channel in channels:
-            le_connection_channels[channel.destination_cid] = channel
 
         return channels
 
